@@ -131,20 +131,23 @@ class _gc_guard:
     """cachebox 6.2.0 (pinned by the repository) can dead-lock the interpreter when a full garbage collection starts while
     its ``cached`` wrapper runs ``locks.setdefault_with(key, <python callable>)``: the collector traverses the Cache object,
     whose traverse hook takes the mutex the same thread already holds (observed once in a long run; back trace in the
-    agent report). Collections are therefore postponed to the end of each case; this changes no program semantics."""
+    agent report). Collections are therefore postponed to the end of each case (the runner does the same around every case; this guard keeps
+    the module safe when it is driven directly); this changes no program semantics."""
 
     def __enter__(self):
         import gc
 
+        self.was_enabled = gc.isenabled()  # vf.runner.call_case already defers collections; then this is a no-op
         gc.disable()
 
     def __exit__(self, *a):
         import gc
 
-        gc.enable()
+        if self.was_enabled:
+            gc.enable()
 
 
-@prop.given("workflow", workflow_case, quick=1600, thorough=100000, max_shards=8)
+@prop.given("workflow", workflow_case, quick=1600, thorough=60000, max_shards=8)
 async def check_workflow(case, rec):
     with _gc_guard():
         await _check_workflow(case, rec)
@@ -320,7 +323,7 @@ token_desc = st.one_of(
 token_case = st.fixed_dictionaries({"tok": token_desc, "port": st.integers(0, 1), "schedule": schedule})
 
 
-@prop.given("tokens", token_case, quick=2400, thorough=160000, max_shards=8)
+@prop.given("tokens", token_case, quick=2400, thorough=100000, max_shards=8)
 async def check_tokens(case, rec):
     with _gc_guard():
         await _check_tokens(case, rec)
